@@ -1180,6 +1180,37 @@ func (fr *Frame) execLoopCut(l *Loop, in []*Edge) map[*ssa.BasicBlock][]*Edge {
 		_ = saveLogOuter
 	}
 
+	// 2a. peel (ghost harnesses only): the first evaluation of the header runs on the entry state. Where it leaves
+	// the loop at once, execution continues with the entry state itself (zero iterations change nothing);
+	// the arbitrary-iteration state below then stands for loops that are entered at least once. Obligations of
+	// the header are not recorded here: the entry state is an instance of the arbitrary-iteration state, for
+	// which they are recorded, and the invariants are proved on entry.
+	var peeled []outEdge
+	if isHarnessRoot(fr) && !vc.logStores {
+		if _, isIf := l.head.Instrs[len(l.head.Instrs)-1].(*ssa.If); isIf {
+			snapVals := fr.vals
+			fr.vals = map[ssa.Value]*Val{}
+			for k, v := range snapVals {
+				fr.vals[k] = v
+			}
+			vc.noOblige++
+			outs := fr.execBlock(l.head, in, false)
+			vc.noOblige--
+			entered := []string{}
+			for _, oe := range outs {
+				if l.blocks[oe.to] {
+					entered = append(entered, oe.e.cond)
+				} else {
+					peeled = append(peeled, oe)
+				}
+			}
+			fr.vals = snapVals
+			if len(peeled) > 0 {
+				reachIn = vc.define(fmt.Sprintf("%s_loop%d_entered", fr.prefix, l.ord), "Bool", or(entered...))
+			}
+		}
+	}
+
 	// 3. real run
 	fr.reach, fr.st = reachIn, pre
 	head := fr.havocHead(l, phis, pre, mod, modGhost, wmChanged, lc, reachIn)
@@ -1308,7 +1339,21 @@ func (fr *Frame) execLoopCut(l *Loop, in []*Edge) map[*ssa.BasicBlock][]*Edge {
 	if lc == nil || len(lc.Decreases) == 0 {
 		vc.notes = append(vc.notes, fmt.Sprintf("loop %d of %s has no variant (termination not proved)", l.ord, fname))
 	}
+	for _, oe := range peeled {
+		rr.exits[oe.to] = append([]*Edge{oe.e}, rr.exits[oe.to]...)
+	}
 	return rr.exits
+}
+
+// isHarnessRoot: loop headers are peeled once (execLoopCut, step 2a) while verifying a ghost harness
+// (rt*: encode then decode; dec*: decode under a premise on the frame), never in the library's own functions.
+func isHarnessRoot(fr *Frame) bool {
+	root := fr.rootFrame()
+	if root == nil || root.fn.Signature.Recv() != nil {
+		return false
+	}
+	n := root.fn.Name()
+	return strings.HasPrefix(n, "rt") || strings.HasPrefix(n, "dec")
 }
 
 func copyCounts(m map[string]int) map[string]int {
